@@ -9,7 +9,7 @@ ever on a real pipe (the peer sends nothing more before it has seen the answer) 
 violation.  Readers: the real SmartServerPipeStreamMedium.serve() loop over two or three
 consecutive requests (recording verbs and the real hello/get/put/has/readv verbs on a memory
 transport); SmartClientRequestProtocolOne/Two and ConventionalResponseHandler + ProtocolThreeDecoder
-reading a response through a SmartClientStreamMedium; and the decoders driven directly by their
+reading a response through the real SmartSimplePipesClientMedium; and the decoders driven directly by their
 own next_read_size() hint (ChunkedBodyDecoder, LengthPrefixedBodyDecoder, SmartServerRequestProtocolOne
 /Two, ProtocolThreeDecoder with the request and with the response handler).  ALL short-read
 patterns are explored by explicit-state search (state = bytes consumed + snapshot of the decoder /
@@ -143,6 +143,7 @@ def run(ctx):
         "items_with_short_reads": acc.counters.get("items_with_short_reads", 0),
         "message_bytes": acc.counters.get("bytes", 0),
         "per_harness": {k[6:]: v for k, v in sorted(acc.counters.items()) if k.startswith("items:")},
+        "executions_per_harness": {k[6:]: v for k, v in sorted(acc.counters.items()) if k.startswith("execs:")},
         "uncached_enumeration_items": bf.counters.get("bf_items", 0),
         "uncached_enumeration_executions": bf.n,
         "uncached_enumeration_cut_off": bf.counters.get("bf_cut_off", 0),
